@@ -19,6 +19,7 @@ func init() {
 	drivers["pp"] = driverPP
 	drivers["pp-replay"] = driverPPReplay
 	drivers["lit"] = driverLit
+	drivers["lit-replay"] = driverLitReplay
 	drivers["sizes"] = driverSizes
 	drivers["layout"] = driverLayout
 	drivers["concat"] = driverConcat
@@ -1002,5 +1003,35 @@ func driverPPReplay(c *Ctx) {
 		ev["want"] = raw
 		c.emit(i, ev)
 		c.count("pp.replayed")
+	}
+}
+
+// lit-replay (TLC -> Go): every spelling MCLiteral enumerated (with what the item must hold for it, stated from the
+// bits of the value) goes through the real sml.Parse; the event carries TLC's verdict and item.
+func driverLitReplay(c *Ctx) {
+	f, err := os.Open(c.In)
+	if err != nil {
+		fmt.Fprintln(os.Stderr, "harness:", err)
+		os.Exit(3)
+	}
+	defer f.Close()
+	sc := bufio.NewScanner(f)
+	sc.Buffer(make([]byte, 1<<20), 1<<24)
+	i := -1
+	for sc.Scan() {
+		i++
+		if !c.want(i) || (c.N > 1 && i%c.N != 0 && c.Only < 0) {
+			continue
+		}
+		var raw map[string]interface{}
+		if err := json.Unmarshal(sc.Bytes(), &raw); err != nil {
+			fmt.Fprintln(os.Stderr, "harness: bad case:", err)
+			os.Exit(3)
+		}
+		ev := parseEvent(strOf(raw["text"]))
+		ev["ev"], ev["how"] = "parse", "lit-replay"
+		ev["want"] = raw
+		c.emit(i, ev)
+		c.count("lit.replayed." + raw["ty"].(string))
 	}
 }
